@@ -35,6 +35,7 @@ ALLOW_PREFIX = (
 DENY_EXACT = ("core::f64::<impl f64>::clamp", "core::f32::<impl f32>::clamp")
 FPDEC_ARITH_TRAITS = ("core::ops::arith::Add", "core::ops::arith::Sub", "core::ops::arith::Mul", "core::ops::arith::Div", "core::ops::arith::Neg")
 
+GUARD_HELPERS = set()     # filled by inventory(): private helpers carrying the documented mixed-unit panic
 EXPECTED = {
     ("quantities::Quantity::add", "core::panicking::panic_fmt"): "documented: different units of a quantity without reference unit",
     ("quantities::Quantity::sub", "core::panicking::panic_fmt"): "documented: different units of a quantity without reference unit",
@@ -135,7 +136,53 @@ def in_scope(scope, d):
     return d in scope or base in scope
 
 
-def inventory(ctx, config, crate, amt, table_fns=(), scope=None):
+def finite_domain_total(U, crate, d, cache):
+    """True if every parameter of function d is a (reference to a) field-less enum of the analysed crates and the
+    body, constant-evaluated (ctfe.py) on EVERY combination of variants, never panics: its panic-capable sites are
+    then unreachable.  A text if an input panics; None if the function is not of that kind / cannot be evaluated."""
+    if d in cache:
+        return cache[d]
+    res = None
+    body = crate.bodies.get(d)
+    try:
+        if U is not None and body is not None and body.get("params"):
+            doms = []
+            for p in body["params"]:
+                ty = p["ty"]
+                while ty.get("k") == "ref":
+                    ty = ty["ty"]
+                adt = None
+                if ty.get("k") == "adt" and not ty.get("args"):
+                    for c in U.crates:
+                        adt = c.adt_by_path.get(ty["path"]) or adt
+                if adt is None or not adt.get("is_enum") or any(v.get("fields") for v in adt["variants"]):
+                    doms = None
+                    break
+                doms.append([("variant", ty["path"], v["name"]) for v in adt["variants"]])
+            n = 1
+            for x in doms or []:
+                n *= len(x)
+            if doms and n <= 4096:
+                import itertools
+                from . import ctfe
+                res = True
+                for combo in itertools.product(*doms):
+                    try:
+                        ctfe.Ctfe(U, lambda path, variant: U._discr.get((path, variant))).call_body(body, list(combo))
+                    except ctfe.FoldPanic as pn:
+                        res = "panics for %s: %s" % ([c[2] for c in combo], pn)
+                        break
+                    except ctfe.CannotFold:
+                        res = None
+                        break
+    except Exception:
+        res = None
+    cache[d] = res
+    return res
+
+
+def inventory(ctx, config, crate, amt, table_fns=(), scope=None, U_inv=None):
+    fd_cache = {}
     sites = []
     fpdec_sites = 0
     unknown = []
@@ -220,6 +267,21 @@ def inventory(ctx, config, crate, amt, table_fns=(), scope=None):
         if not all(wh.startswith("core::panicking::") for wh in by_fn.get(h, [])):
             return False
         return all(c in DOC or doc_helper(c, seen + (h,)) for c, _div in cs)
+    def guard_helper(h, seen=()):
+        """a private helper that *contains* the documented guard (returns normally for equal units, panics otherwise):
+        called only by the documented functions (or such helpers), its own sites nothing but the panic itself.  Which
+        inputs make it panic is C10's value-flow business; here it only matters that no other operation can reach it."""
+        cs = call_sites.get(h, [])
+        if not cs or h in seen or h in DOC:
+            return False
+        if not by_fn.get(h) or not all(wh.startswith("core::panicking::") for wh in by_fn.get(h, [])):
+            return False
+        return all(c in DOC or guard_helper(c, seen + (h,)) for c, _div in cs)
+    GUARD_HELPERS.update(h for h in by_fn if guard_helper(h))
+    for h in sorted(GUARD_HELPERS):
+        for c, _div in call_sites.get(h, []):
+            if c in DOC:
+                sites.append((c, "core::panicking::panic_fmt", None))   # counts as the documented site of c
     helper_calls = set()
     for (d, what, sp) in sites:
         if what.endswith(" (diverging)") and (d in DOC or doc_helper(d)) and doc_helper(what[:-len(" (diverging)")]):
@@ -230,6 +292,9 @@ def inventory(ctx, config, crate, amt, table_fns=(), scope=None):
             if d in DOC:
                 sites.append((d, "core::panicking::panic_fmt", sp))   # counts as the documented site of d
             continue
+        if what.startswith("core::panicking::") and d in GUARD_HELPERS:
+            ctx.ob("panic-site", "%s/%s/%s" % (label, d, what), True, "the documented mixed-unit panic, raised in a private helper only the documented operations call", sp)
+            continue
         if what.startswith("core::panicking::") and doc_helper(d):
             ctx.ob("panic-site", "%s/%s/%s" % (label, d, what), True, "the documented mixed-unit panic, factored into a private diverging helper", sp)
             continue
@@ -237,8 +302,13 @@ def inventory(ctx, config, crate, amt, table_fns=(), scope=None):
         if key in EXPECTED:
             ctx.ob("panic-site", "%s/%s/%s" % (label, d, what), True, EXPECTED[key], sp)
         else:
+            fd = finite_domain_total(U_inv, crate, d, fd_cache)
+            if fd is True:
+                ctx.ob("panic-site", "%s/%s/%s" % (label, d, what), True,
+                       "every parameter of the function is a field-less enum: constant-evaluated on every input, none panics", sp)
+                continue
             ctx.fail("panic-site", "%s/%s/%s" % (label, d, what),
-                     "undocumented panic-capable site in library code: %s in %s" % (what, d), sp)
+                     "undocumented panic-capable site in library code: %s in %s%s" % (what, d, (" (%s)" % fd) if fd else ""), sp)
     for (d, what, sp) in unknown:
         ctx.fail("unvetted-callee", "%s/%s/%s" % (label, d, what),
                  "call to %s in %s: not on the list of std functions accepted as non-panicking (fail closed)" % (what, d), sp)
@@ -276,7 +346,7 @@ def who_may_panic(ctx, config, w, crate):
                     if f and not cl["cleanup"]:
                         outs.update(x for x in (p, f["path"]) if x in c.mir)
                 graph[d] = outs
-    bad_targets = {k[0] for k in EXPECTED if k[1].endswith("panic_fmt")}
+    bad_targets = {k[0] for k in EXPECTED if k[1].endswith("panic_fmt")} | set(GUARD_HELPERS)
     n = 0
     for q in w.qtypes:
         if q.crate is not crate or q.kind != "ref":
@@ -701,7 +771,7 @@ def run(ctx):
         for crate in w.crates:
             if crate.is_test:
                 continue
-            nb, sites = inventory(ctx, config, crate, amt, table_functions(w), scope)
+            nb, sites = inventory(ctx, config, crate, amt, table_functions(w), scope, U_inv=w.U)
             total_bodies += nb
             if crate.name == "quantities":
                 exp = {(d, wh) for (d, wh, sp) in sites}
